@@ -96,6 +96,13 @@ static uint256 subj;
 #define DEC(s, x, st) DeserializeFromVbkEncoding(s, subj, x, st)
 #define ENC(x, w) (x).toVbkEncoding(w)
 #define HAS_EQ 0
+#elif defined(E_MERKLE_RAW)
+typedef MerklePath T;
+static uint256 subj;
+#define DEC(s, x, st) DeserializeFromRaw(s, subj, x, st)
+#define ENC(x, w) (x).toRaw(w)
+#define HAS_EQ 0
+#define NO_ESTIMATE 1
 #else
 #error "select an entity"
 #endif
